@@ -554,8 +554,19 @@ func VerifIOSACL(cmdInfo string) {
 			}
 		}
 	}
+	// ghost: the device ACL has remark lines only (no entry): it permits
+	// everything until the first entry arrives
+	onlyRemarks := len(aLines) > 0
+	for _, l := range aLines {
+		if vf.FixString(getIOSActionOfText(l)) != "remark" {
+			onlyRemarks = false
+		}
+	}
 	cause := ""
-	if !share {
+	if onlyRemarks {
+		cause = " [device ACL holds remark lines only: it permits everything until its first entry is added]"
+		vf.Cover("device ACL holds remark lines only")
+	} else if !share {
 		cause = " [old and new ACL share no line]"
 		vf.Cover("old and new ACL share no line")
 	} else if moved {
